@@ -6,6 +6,7 @@ import LexVerif.Proof.WriteRadixIntText
 import LexVerif.Proof.WriteRadixRound
 import LexVerif.Proof.WriteRadixError
 import LexVerif.Proof.WriteRadixMid
+import LexVerif.Proof.WriteRadixBig
 import Mathlib.Tactic.SplitIfs
 /-!
 # C07 — generic-radix float output
@@ -121,6 +122,7 @@ open LexVerif.Model LexVerif.Model.WriteRadix LexVerif.Model.WriteRadixInt
 open LexVerif.Proof.WriteRadixF LexVerif.Proof.WriteRadixWF LexVerif.Proof.WriteRadixTerm
 open LexVerif.Proof.WriteRadixTermInt LexVerif.Proof.WriteRadixFrac LexVerif.Proof.WriteRadixInteger
 open LexVerif.Proof.WriteRadixRound LexVerif.Proof.WriteRadixError LexVerif.Proof.WriteRadixMid
+open LexVerif.Proof.WriteRadixBig
 open LexVerif.Model.WriteInt (Res)
 
 /-- binary32 or binary64 (radix.rs runs in the float's own type) -/
@@ -478,6 +480,22 @@ theorem radix_error_bound_mid_partial {f : Fmt} (hf : StdFmt f) {r : Nat} (hr : 
   unfold PositionalFits maxDigitLength
   have : 2 * f.p ≤ 232 := by rcases hf with rfl | rfl <;> decide
   omega
+
+/-- **C07 ulp clause, proved for `|x| ≥ 2^p`** (every finite float from `2^53` / `2^24` up to the largest), every
+generic radix: such a float is an even integer, there are no fraction digits, and the digits the integer loops produce
+(zero padding `integer /= base` — each step within a factor `1 ± 2^-p`, at most 613 / 66 steps because `3^z` cannot exceed
+the float's range — then one doubly rounded digit step, then exact steps) denote a number whose nearest float is at most
+**1340 patterns (binary64) / 246 patterns (binary32)** from the input. The judge's limits are 2048 / 256.
+(`PositionalFits` can fail here: more than 232 integer digits in positional notation are cut to zeros.) -/
+theorem radix_error_bound_big_partial {f : Fmt} (hf : StdFmt f) {r : Nat} (hr : r ∈ genericRadices) {bits : Nat}
+    (h1 : (f.bias + f.p) * 2 ^ (f.p - 1) ≤ bits) (h2 : bits < f.infBits) {g : Gen}
+    (hg : generate true f r bits = .ok g) :
+    ulpDist (roundNE f (ofDigits r ((g.ints ++ g.fracs).map byteDigit)) (r ^ g.fracs.length)) bits
+      ≤ (if f = f64 then 1340 else 246) := by
+  obtain ⟨h3, h36⟩ := genericRadices_bounds r hr
+  rcases hf with rfl | rfl
+  · exact error_big bigFmt_f64 h3 h36 h1 h2 hg
+  · exact error_big bigFmt_f32 h3 h36 h1 h2 hg
 
 /-- the range of `radix_error_bound_mid_partial` in bit patterns: `[1.0, 2^p)` -/
 example : one f64 = 0x3ff0000000000000 ∧ (f64.bias + f64.p) * 2 ^ (f64.p - 1) = 0x4340000000000000
